@@ -20,6 +20,8 @@ def sym_int(x=0, *a):
         return SymInt(x.t, False) if x.isfloat else x
     if hasattr(x, 'sym_scalar'):
         return sym_int(x.sym_scalar())
+    if hasattr(x, 'sym_int'):
+        return x.sym_int()
     return _b.int(x, *a)
 
 
